@@ -23,6 +23,8 @@ def gen_spsc(rng):
         else:
             op = 5 if late or rng.random() < 0.3 else 1
         k = rng.choice([0, 1, 1, 1, 2, 3, cap, cap + 1, max(0, cap - 1), 2 * cap + 1, rng.randrange(0, 12)])
+        if rng.random() < 0.06:
+            op, k = 6, rng.choice([1, 1, 0])     # the sender task's waker polls inline / counts
         case += [op, min(k, 200)]
     return case
 
@@ -40,6 +42,22 @@ def fixed_spsc(tier):
                 for op, k in t:
                     c += [op, k]
                 out.append(c)
+    # inline-poll families: the sender task is polled from inside wake(), i.e. in the middle of the
+    # receiver's pop / close (finer than operation granularity); queue full, sender parked, then the
+    # receiver pops or goes away
+    for cap in (0, 1, 2, 3, 7):
+        full = cap + 3
+        for tail in ([5, 0], [2, 1], [2, 1, 5, 0], [3, 1, 5, 0], [2, 0, 5, 0], [4, 0, 5, 0], [2, 1, 1, 0, 5, 0]):
+            out.append([cap, 1, full, 6, 1, 1, 0] + tail)
+            out.append([cap, 6, 1, 1, full, 1, 1] + tail)
+            out.append([cap, 0, full, 1, 0, 6, 1] + tail + [6, 0, 1, 1])
+    alpha_i = [(1, 0), (1, 2), (2, 1), (3, 1), (5, 0), (4, 0), (6, 0)]
+    for n in range(1, (3 if tier == "quick" else 4) + 1):
+        for t in itertools.product(alpha_i, repeat=n):
+            c = [1, 6, 1, 1, 3]
+            for op, k in t:
+                c += [op, k]
+            out.append(c)
     # wrap-around families: fill, drain, refill across the index wrap for each internal capacity
     for cap in (0, 1, 2, 3, 4, 7, 8, 15, 16, 63, 64, 127, 128):
         for a in (cap, cap + 1, max(cap - 1, 0)):
@@ -54,7 +72,7 @@ def valid_spsc(c):
         return False
     if not (0 <= c[0] <= 128):
         return False
-    return all(0 <= op <= 5 for op in c[1::2]) and all(0 <= k <= 200 for k in c[2::2])
+    return all(0 <= op <= 6 for op in c[1::2]) and all(0 <= k <= 200 for k in c[2::2])
 
 
 def hist_spsc(cases, outs):
@@ -145,6 +163,88 @@ def valid_worker(c):
     return len(c) % 2 == 0 and all(0 <= o <= 3 for o in c[0::2]) and all(0 <= a <= 1000000 for a in c[1::2])
 
 
+def gen_rxring(rng):
+    k = rng.choice([0, 1, 1, 2, 2, 3, 5])
+    size = 1 << k
+    n = rng.choice([2, 4, 8, 16, 30])
+    case = [k]
+    for i in range(n):
+        r = rng.random()
+        if r < 0.4:
+            a = rng.choice([0, 1, 1, size - 1, size, size + 3, rng.randrange(0, size + 2)])
+            b = rng.choice([0, 0, 1, size, rng.randrange(0, size + 2)])
+            case += [0, max(0, a), b]
+        elif r < 0.7:
+            case += [1, rng.choice([0, 1, 1, size, size + 1]), 0]
+        elif r < 0.95:
+            case += [2, rng.choice([0, 1, 1, 2, size, 70000]), 0]
+        else:
+            case += [3, 0, 0] if i > n // 2 else [1, 1, 0]
+    return case
+
+
+def fixed_rxring(tier):
+    import itertools
+    out = []
+    L = 4 if tier == "quick" else 5
+    for k in (0, 1, 2):
+        size = 1 << k
+        alpha = [(0, 0, 0), (0, 1, 0), (0, size, 0), (0, 1, size), (0, size + 1, 1), (1, 1, 0), (2, 1, 0), (2, size, 0), (3, 0, 0)]
+        for n in range(1, L + 1):
+            for t in itertools.product(alpha, repeat=n):
+                c = [k]
+                for op in t:
+                    c += list(op)
+                out.append(c)
+    return out
+
+
+def valid_rxring(c):
+    return len(c) >= 1 and len(c) % 3 == 1 and 0 <= c[0] <= 6 and all(0 <= o <= 3 for o in c[1::3]) and all(0 <= a <= 100000 for a in c[2::3] + c[3::3])
+
+
+def explore_check(ctx, stats):
+    """bounded exploration of every interleaving of four two-operation scenarios in the extracted MODEL, whose
+    close step order is generated from the source: a lost wake-up is reported with its witness schedule"""
+    from run_check import hexline, parse_hexline
+    import os, json, glob, atexit, time
+    cases = [[0], [1], [2], [3]]
+    lines = [hexline(c) for c in cases]
+    t0 = time.time()
+    outs = ctx.model("spsc_explore", lines)
+    probs = []
+    names = {0: "drop sender || receiver poll (empty)", 1: "drop sender || receiver poll (one item)",
+             2: "sender poll (full) || drop receiver", 3: "sender poll (full) || pop"}
+    witness = None
+    for c, o in zip(cases, outs):
+        v = parse_hexline(o) if o and not o.startswith("!") else ([] if not o else [-1])
+        if v:
+            sched = "".join("P" if x == 1 else "C" for x in v[1:])
+            witness = {"scenario": names[c[0]], "schedule": sched,
+                       "meaning": "P = one atomic step of the producer thread, C = of the consumer thread; after this schedule a parked task faces a non-empty/non-full/closed queue with no wake in flight"}
+            print("  broken: model (close step order read from the source) has a lost-wake-up schedule in scenario '%s': %s" % (names[c[0]], sched))
+            probs.append({"kind": "judge", "component": "spsc_explore", "case": c, "impl": "model witness schedule " + sched, "model": o})
+    stats.append({"component": "spsc_explore", "cases": len(cases), "distinct": len(cases), "distinct_nontrivial": len(cases),
+                  "model_s": round(time.time() - t0, 2), "samples": [{"case": lines[-1], "impl": outs[-1]}],
+                  "note": "model only: every interleaving of the scenario, every intermediate state; empty output = no lost wake-up"})
+    if witness:
+        start = time.time()
+
+        def attach():
+            # add the witness schedule to the replay file written by this run
+            root = os.path.dirname(os.path.dirname(os.path.abspath(__file__)))
+            for f in glob.glob(os.path.join(root, "build", "replay", "C17_*.json")):
+                try:
+                    if os.path.getmtime(f) >= start - 1:
+                        r = json.load(open(f))
+                        r["model_witness"] = witness
+                        json.dump(r, open(f, "w"), indent=1)
+                except Exception:
+                    pass
+        atexit.register(attach)
+    return probs
+
+
 def mt_check(ctx, stats):
     """supporting evidence only: real threads on this machine's (x86, strongly ordered) memory model"""
     from run_check import hexline, parse_hexline
@@ -177,10 +277,12 @@ registry.register("C17", {
          "valid": valid_spsc, "nontrivial": nontrivial_spsc, "histogram": hist_spsc},
         {"name": "cursor", "gen": gen_cursor, "fixed": fixed_cursor, "quick": 20000, "thorough": 300000,
          "valid": valid_cursor, "nontrivial": lambda case, out: any(o == 3 for o in case[1::2]) and sum(out) > 0},
+        {"name": "rxring", "gen": gen_rxring, "fixed": fixed_rxring, "quick": 20000, "thorough": 300000,
+         "valid": valid_rxring, "nontrivial": lambda case, out: len(out) >= 4 and out[-2] > 0},
         {"name": "worker", "gen": gen_worker, "fixed": fixed_worker, "quick": 20000, "thorough": 300000,
          "valid": valid_worker, "nontrivial": lambda case, out: len(out) >= 2 and out[-1] > 0},
     ],
-    "extra_checks": [mt_check],
+    "extra_checks": [explore_check, mt_check],
     "rule": "spsc cases: capacity + a schedule of public operations (try_slice/poll_slice + push k, try_slice/poll_slice + pop k, drop of either side); corpus + every schedule of length <= 4 (quick) / 6 (thorough) over a 10-letter alphabet for capacities 1,2,3 + wrap-around families for internal capacities 2..256 + seeded random schedules; a case is non-trivial when both sides operate and at least one wake-up is delivered; cursor: ring size 2^k + acquire/produce/consume operation sequences (all sequences of length <= 4/5 over a 10-letter alphabet for sizes 1,2,4 + random); worker: submit/poll_acquire/finish/drop sequences (all sequences of length <= 5/7 over a 7-letter alphabet + random)",
     "assumptions": [
         "PARTIAL: interleaving semantics = sequential consistency. Reorderings that the C11 model allows beyond interleavings for the chosen Ordering::* arguments are not exhibited by the model; the orderings are tied to the source only syntactically (C17_orderings)",
